@@ -13,7 +13,7 @@ import (
 func C15(c *Ctx) {
 	r := c.R
 	r.Technique = "sibling agreement between the general class-matching procedure and builder.BasicLatinLookup (uniform case folding over the three member sources); wiring of the fast path in the 8 BasicLatinLookupTable variants and of the table emission in the builder"
-	r.Explanation = "Equality of the two procedures over all classes × 128 runes is a semantic question that static analysis of this kind does not settle (enumerating it means running code); it is not claimed. One structural necessary condition is decided: the general path folds the input rune before testing all three member sources (characters, ranges, Unicode classes), so the table computation must take ignoreCase into account in each of its three member loops. Also decided: the fast path is taken only for cur < 128 on the unfolded rune, consults basicLatinChars[cur] != inverted, reports to failAt like the general path and otherwise falls through to the unchanged general path; the table is emitted from the node's own members and flag exactly when the variant has the fast path. Not decided: everything else, e.g. the table is computed from raw range end-points while the emitted ranges are lowered end-point-wise ([Z-a]i differs; observation O2 in DESIGN.md)."
+	r.Explanation = "Equality of the two procedures over all classes × 128 runes is a semantic question that static analysis of this kind does not settle (enumerating it means running code); it is not claimed as a whole. Structural necessary conditions are decided: the general path folds the input rune before testing all three member sources (characters, ranges, Unicode classes), so the table computation must take ignoreCase into account in each of its three member loops. Also decided: the fast path is taken only for cur < 128 on the unfolded rune, consults basicLatinChars[cur] != inverted, reports to failAt like the general path and otherwise falls through to the unchanged general path; the table is emitted from the node's own members and flag exactly when the variant has the fast path. Two further sibling clauses: under ignoreCase the Basic Latin filter (< 128) is applied to the folded member, the value the general path compares with (C15-d; found defect F17 on the pinned tree: U+212A and U+0130 fold into Basic Latin; repaired), and range end points are not case-mapped one by one (C15-e = C01-g; finding F16: the table is right, the general path is not, so the two disagree on [A-z]i and [Z-a]i). Not decided: equality of the two procedures beyond these clauses."
 	r.Assumptions = []string{"C01/C12 cover the general path"}
 	r.Rule("C15-a", "BasicLatinLookup handles ignoreCase inside each of its member loops (chars, ranges, unicodeClasses), as the general path folds the rune before all three tests")
 	r.Rule("C15-b", "parseCharClassMatcher (BasicLatinLookupTable variants): `if cur < 128 { if chr.basicLatinChars[cur] != chr.inverted { read; failAt(true); return slice,true }; failAt(false); return nil,false }` on the unfolded rune, before the general path; other variants never mention basicLatinChars in code")
